@@ -104,6 +104,19 @@ class AH:
                 self.reg(s.op(A, 'fapply', 'not', a, None), T.neg(self.live[a], n), '~')
             else:
                 self.reg(s.op(A, 'fapply', o, a, c), gen.conn(o, self.live[a], self.live[c], full), o)
+        elif k < 0.46:
+            # read-only queries through the wrapper (count; the harness also creates
+            # pick / pick_iter iterators that are dropped unused, half-used and used)
+            a = rng.choice(hs)
+            r = s.op(A, 'count', a, n)
+            e = bin(self.live[a]).count('1')
+            if s.ok() and r != e:
+                self.ctx.violation('C08:query', f'count gave {r}, expected {e}', self.case())
+                self.ok = False
+            sp = s.op(A, 'support', a)
+            if s.ok() and set(sp) != set(T.support(self.live[a], n)):
+                self.ctx.violation('C08:query', f'support gave {sp}', self.case())
+                self.ok = False
         elif k < 0.5:
             a, c = rng.choice(hs), rng.choice(hs)
             o = rng.choice(['eq', 'ne', 'le', 'lt'])
